@@ -9626,6 +9626,11 @@ simplifier_init(simplifier_t *self, const tsk_id_t *samples, tsk_size_t num_samp
         ret = (int) ret_id;
         goto out;
     }
+    /* Refuse migrations before the tables are truncated, not after */
+    if (tables->migrations.num_rows != 0) {
+        ret = tsk_trace_error(TSK_ERR_SIMPLIFY_MIGRATIONS_NOT_SUPPORTED);
+        goto out;
+    }
 
     /* Allocate the heaps used for small objects-> Assuming 8K is a good chunk size
      */
